@@ -10,7 +10,7 @@ SPEC = {
         'validation callbacks on the scheduler thread, drained before every wallet call',
     ],
     'stages': [
-        gen('vh_c41', 'c41_createtx', 208, 4000, min_cases_quick=64,
+        gen('vh_c41', 'c41_createtx', 208, 4000, min_cases_quick=48, max_seconds_quick=900, max_seconds_thorough=7200,
             floors={'create-ok': 0.5, 'with-change': 0.4, 'subtract-fee': 0.25, 'subtract-fee-multi': 0.05, 'multi-input': 0.3, 'preset-inputs': 0.2,
                     'test-accepted': 0.4, 'changeless': 0.03, 'coins-of->=3-output-types': 0.4, 'committed': 0.15, 'locked-coins': 0.1},
             rule='funded wallet + 1-5 CreateTransaction calls; non-trivial = successes with change, with a subtract-fee recipient and with >=2 inputs in one case'),
